@@ -15,6 +15,7 @@ import (
 	"net/url"
 	"path"
 	"path/filepath"
+	"sort"
 	"strconv"
 	"strings"
 	"text/template"
@@ -221,6 +222,18 @@ func checkDRM(drmName string, drmCfg *drm.DrmConfig, a *asset) error {
 	}
 	if a.refRep != nil && a.refRep.PreEncrypted {
 		return fmt.Errorf("drm parameter %q, but pre-encrypted asset %s cannot be encrypted again", drmName, a.AssetPath)
+	}
+	// Video and audio that cannot be encrypted would be served in the clear, while the MPD announces the protection
+	var clearReps []string
+	for _, rep := range a.Reps {
+		if (rep.ContentType == "video" || rep.ContentType == "audio") && rep.encData == nil && !rep.PreEncrypted {
+			clearReps = append(clearReps, fmt.Sprintf("%s (%s)", rep.ID, rep.Codecs))
+		}
+	}
+	if len(clearReps) > 0 {
+		sort.Strings(clearReps)
+		return fmt.Errorf("drm parameter %q, but asset %s has representations that cannot be encrypted: %s",
+			drmName, a.AssetPath, strings.Join(clearReps, ", "))
 	}
 	return nil
 }
